@@ -8,6 +8,7 @@ mod clock;
 mod vterm;
 mod c02s;
 mod c03s;
+mod c09s;
 mod c16s;
 mod c08;
 
@@ -17,8 +18,8 @@ fn main() {
     let args: Vec<String> = std::env::args().collect();
     runner::install_panic_hook();
     let id = args.get(1).map(|s| s.to_uppercase()).unwrap_or_default();
-    if args.len() < 3 || !["C08", "C01", "C02", "C03", "C16"].contains(&id.as_str()) {
-        eprintln!("usage: vhs <C08|C01|C02|C03|C16> <quick|thorough> | vhs <C08|C01|C02|C03|C16> --replay <file>");
+    if args.len() < 3 || !["C08", "C01", "C02", "C03", "C09", "C16"].contains(&id.as_str()) {
+        eprintln!("usage: vhs <C08|C01|C02|C03|C09|C16> <quick|thorough> | vhs <C08|C01|C02|C03|C09|C16> --replay <file>");
         std::process::exit(2);
     }
     let seed: u64 = std::env::var("VERIF_SEED").ok().and_then(|s| s.trim().parse::<i128>().ok()).map(|v| v as u64).unwrap_or(0);
@@ -27,6 +28,7 @@ fn main() {
         "C01" => c03s::property_c01(),
         "C03" => c03s::property(),
         "C16" => c16s::property(),
+        "C09" => c09s::property(),
         _ => c08::property(),
     };
     if args[2] == "--replay" {
